@@ -107,3 +107,35 @@ Qed.
 (* a raising call is reported: the run ends in the handler exactly when some call raised *)
 Lemma run_body_raised body : forall i s, fst (run_body body i None s) = false.
 Proof. induction body as [|[f|f v] body IH]; intros i s; cbn [run_body andb]; auto. Qed.
+
+(* ---------- settings of the grammar across a parse that ends in the handler ----------
+   The body of yaep_parse may assign some settings of the grammar ([changed]: make_parse clears one_parse_p while it
+   builds all parses for the cost flag and puts it back on its normal exit only).  The prologue saves some settings in
+   locals before the handler is installed ([saved]); the handler writes some locals back ([restored]).  A local that
+   was never saved holds anything.  If every changed setting is restored and every restored one was saved, the
+   settings after the handler are those before the call. *)
+Definition gsettings := string -> Z.
+Definition smem (f : string) (l : list string) : bool := existsb (String.eqb f) l.
+Lemma smem_In f l : smem f l = true <-> In f l.
+Proof.
+  unfold smem. rewrite existsb_exists. split.
+  - intros (x & Hx & E). apply String.eqb_eq in E. now subst.
+  - intros H. exists f. split; auto. apply String.eqb_refl.
+Qed.
+Definition after_handler (restored : list string) (locals s' : gsettings) : gsettings :=
+  fun f => if smem f restored then locals f else s' f.
+Definition settings_kept (changed saved restored : list string) : bool :=
+  forallb (fun f => smem f restored) changed && forallb (fun f => smem f saved) restored.
+
+Theorem failed_parse_keeps_settings changed saved restored (s locals s' : gsettings) :
+  settings_kept changed saved restored = true ->
+  (forall f, In f saved -> locals f = s f) ->            (* the prologue saved them *)
+  (forall f, ~ In f changed -> s' f = s f) ->            (* the body assigns only [changed] *)
+  forall f, after_handler restored locals s' f = s f.
+Proof.
+  unfold settings_kept, after_handler. intros H Hl Hb f. apply andb_prop in H. destruct H as [H1 H2].
+  rewrite forallb_forall in H1, H2.
+  destruct (smem f restored) eqn:E.
+  - apply Hl. apply smem_In. apply H2. apply smem_In. exact E.
+  - apply Hb. intros Hc. apply H1 in Hc. congruence.
+Qed.
